@@ -12,7 +12,7 @@ use std::os::unix::ffi::OsStrExt;
 
 pub static DEF: PropDef = PropDef {
     id: "C08",
-    rule: "random: trees from empty to 3000 entries (thorough: 30000) in 1-12 directories nested up to 4 deep, names of 1-250 bytes (so that the 128 KiB budget of a 256 KiB stack limit forces many batches cheaply) incl. blanks/newlines/leading dashes, run through the built find binary under RLIMIT_STACK {256 KiB, 1 MiB, 8 MiB, unlimited} x -exec/-execdir x 0-3 fixed arguments x test prefix {none, -type f, -name 'f*', ! -name '*7*'} x {-depth} x one or two starting points (the first spelled c/r, ./c/r, c/r/, c//r, c/r/., c/up/../r or c/up/..; for -execdir on such a starting point itself the textual and the physical (directory, ./name) pair are both accepted) x '-quit' after the k-th matching entry x rec scripted to fail (exit 1..255 / signal) on chosen invocations x a missing command x a labelled -printf after the action (its truth). Oracle: records from rec: fixed arguments first and unchanged; the concatenation of the appended paths over all invocations == the reference visit-order list of entries on which the action is reached (each exactly once, in order); no 'Argument list too long'; all pending batches have run after -quit and at exit; exit status != 0 iff some invocation failed or could not be started; the -printf after the action fires on every reached entry (action always true). -execdir: every record's cwd is one directory, its appended arguments are ./basename of entries of exactly that directory, per-directory order preserved, every entry delivered once. Non-trivial = >= 2 invocations of the action, or a -quit / failing-invocation / missing-command case. Distinct = distinct case JSON.",
+    rule: "random: trees from empty to 3000 entries (thorough: 30000) in 1-12 directories nested up to 4 deep, names of 1-250 bytes (so that the 128 KiB budget of a 256 KiB stack limit forces many batches cheaply) incl. blanks/newlines/leading dashes, run through the built find binary under RLIMIT_STACK {256 KiB, 1 MiB, 8 MiB, unlimited} x -exec/-execdir x 0-3 fixed arguments x test prefix {none, -type f, -name 'f*', ! -name '*7*'} x {-depth} x {-mindepth 0..3} x one or two starting points (the first spelled c/r, ./c/r, c/r/, c//r, c/r/., c/up/../r or c/up/..; for -execdir on such a starting point itself the textual and the physical (directory, ./name) pair are both accepted) x '-quit' after the k-th matching entry x rec scripted to fail (exit 1..255 / signal) on chosen invocations x a missing command x a labelled -printf after the action (its truth). Oracle: records from rec: fixed arguments first and unchanged; the concatenation of the appended paths over all invocations == the reference visit-order list of entries on which the action is reached (each exactly once, in order); no 'Argument list too long'; all pending batches have run after -quit and at exit; exit status != 0 iff some invocation failed or could not be started; the -printf after the action fires on every reached entry (action always true). -execdir: every record's cwd is one directory, its appended arguments are ./basename of entries of exactly that directory, per-directory order preserved, every entry delivered once. Non-trivial = >= 2 invocations of the action, or a -quit / failing-invocation / missing-command case. Distinct = distinct case JSON.",
     assumptions: &[
         "the running kernel decides whether an invocation is accepted",
         "-exec batches are flushed at the end of each starting point (visible only as invocation boundaries, which are not asserted)",
@@ -51,6 +51,9 @@ pub struct Case {
     /// index into ROOT_SPELLINGS for the first starting point
     #[serde(default)]
     pub root_spelling: u8,
+    /// -mindepth N: the directories between the reached files are then not evaluated themselves
+    #[serde(default)]
+    pub mindepth: u8,
 }
 
 /// spellings of the first starting point (the tree is built at c/r; c/up is an empty sibling)
@@ -121,6 +124,7 @@ pub fn gen_case(g: &mut Gen, big: bool) -> Case {
         missing_cmd: g.chance(1, 25),
         second: g.chance(1, 4),
         root_spelling: if g.chance(1, 3) { g.below(ROOT_SPELLINGS.len() as u64) as u8 } else { 0 },
+        mindepth: if g.chance(1, 4) { g.usize_in(1, 3) as u8 } else { 0 },
     }
 }
 
@@ -170,7 +174,7 @@ pub fn check(ctx: &mut Ctx, c: &Case) -> Outcome {
         roots.push("c/s".to_string());
     }
     // the reached entries, in visit order
-    let wo = WalkOpts { follow: FollowMode::P, depth_first: c.depth, ..Default::default() };
+    let wo = WalkOpts { follow: FollowMode::P, depth_first: c.depth, min_depth: c.mindepth as usize, ..Default::default() };
     let mut reached: Vec<String> = vec![];
     let mut quit_hit = false;
     for r in &roots {
@@ -203,6 +207,10 @@ pub fn check(ctx: &mut Ctx, c: &Case) -> Outcome {
     args.push("-sorted".into());
     if c.depth {
         args.push("-depth".into());
+    }
+    if c.mindepth > 0 {
+        args.push("-mindepth".into());
+        args.push(c.mindepth.to_string());
     }
     match c.test {
         1 => args.extend(["-type".to_string(), "f".to_string()]),
@@ -379,6 +387,7 @@ pub fn check(ctx: &mut Ctx, c: &Case) -> Outcome {
         .class_if(c.execdir, "execdir")
         .class_if(c.two_roots, "two-starting-points")
         .class_if(c.root_spelling != 0, "starting-point-not-in-normal-form")
+        .class_if(c.mindepth > 0, "with-mindepth")
         .class_if(c.second, "two-batching-actions")
         .class_if(reached.is_empty(), "nothing-reached")
         .class(match c.stack {
